@@ -467,15 +467,23 @@ func ruleC01R8(c *Ctx) {
 	st := c.P.Fn(aBufStart)
 	rec := c.callsTo(st, anchorPred(aBufRecover))
 	var goRun []ssa.Instruction
-	for _, s := range callsIn(st) {
-		if g, ok := s.(*ssa.Go); ok {
-			for _, cal := range c.P.callees(g) {
-				if isAnchor(cal, aFeederRun) {
-					goRun = append(goRun, g)
-				}
-			}
+	gs, _ := c.feederGoSites()
+	for _, g := range gs {
+		if g.Parent() == st {
+			goRun = append(goRun, g)
 		}
 	}
+	// the recovery runs synchronously in Start: Start returns (and the bufferer is handed to the producers of Accept)
+	// only after every recovered chunk is in the queue. A recovery inside a goroutine or a deferred call races with Accept.
+	nRec := 0
+	for _, s := range c.callSitesOf(anchorPred(aBufRecover)) {
+		nRec++
+		_, isCall := s.(*ssa.Call)
+		c.check(isCall && s.Parent() == st, "C01.R8", s.Parent(), "recovered chunks are queued before Start returns", s.Pos(),
+			"recoverExistingChunks is an ordinary call in bufferer.Start itself",
+			"recoverExistingChunks runs outside the body of bufferer.Start (goroutine, closure or deferred call): Accept can queue new chunks ahead of recovered ones")
+	}
+	c.floor("C01.R8", "recoverExistingChunks call sites", nRec, 1)
 	c.checkOrder("C01.R8", st, "recoverExistingChunks", callInstrSet(rec), "go feeder.Run", instrSet(goRun))
 
 	starter := c.P.Fn(aPrepPipe).AnonFuncs[0]
